@@ -3,6 +3,7 @@
 mod g1;
 mod g1gen;
 mod g1run;
+mod g2;
 mod mon;
 mod render;
 mod util;
